@@ -18,6 +18,7 @@ import (
 type VhHTLC struct {
 	Data      string // the hash field of the secret
 	Preimage  string // the witness preimage
+	Real      string // the bytes whose sha256 the hash field holds (when well-formed)
 	HashOK    bool   // the hash field is 64 hex characters
 	PreimgOK  bool   // the witness preimage is the (hex encoded) preimage of the hash field
 }
@@ -26,15 +27,17 @@ func VhNewHTLC(tag string) VhHTLC {
 	real := v.Str(tag + ".preimage.bytes")
 	realHex := hex.EncodeToString([]byte(real))
 	h := sha256.Sum256([]byte(real))
-	x := VhHTLC{}
+	x := VhHTLC{Real: real}
 	switch v.Int(tag+".hash.kind", 0, 2) {
 	case 0:
 		x.Data = hex.EncodeToString(h[:])
 		x.HashOK = true
 	case 1: // too short
 		x.Data = hex.EncodeToString(h[:16])
-	case 2: // arbitrary text
+	case 2: // text that is not hex (an arbitrary 64-hex value is case 0 with another preimage in the witness)
 		x.Data = v.Str(tag + ".hash.garbage")
+		_, gerr := hex.DecodeString(x.Data)
+		v.Assume(gerr != nil)
 	}
 	switch v.Int(tag+".preimage.kind", 0, 3) {
 	case 0:
@@ -50,6 +53,7 @@ func VhNewHTLC(tag string) VhHTLC {
 		v.Assume(derr != nil)
 	case 3:
 		x.Preimage = ""
+		x.PreimgOK = v.And(x.HashOK, real == "")
 	}
 	return x
 }
@@ -85,9 +89,12 @@ func vhHTLCSound(maxN, maxPub, maxRef, maxS int) {
 		wb, _ := json.Marshal(HTLCWitness{Preimage: h.Preimage, Signatures: texts})
 		witness = string(wb)
 	} else {
-		witness = v.Str("witness.garbage")
+		witness = v.Str("witness.garbage") // text that is not a JSON witness
+		var probe HTLCWitness
+		v.Assume(json.Unmarshal([]byte(witness), &probe) != nil)
 		sigs = nil
-		h.PreimgOK = false
+		// a malformed witness is read as the empty witness: it carries the empty preimage, which only opens sha256("")
+		h.PreimgOK = v.And(h.HashOK, h.Real == "")
 	}
 	err := VerifyHTLCProof(cashu.Proof{Secret: proofSecret, Witness: witness}, secret)
 	if err == nil {
